@@ -889,32 +889,63 @@ Definition hup_campaign (r : raft) (transfer : bool) : Res raft :=
 Theorem hup_spec r tl r' :
   hup r tl = Ok r' ->
   (is_leader r = true /\ r' = r) \/
-  (is_leader r = false /\ hup_scan r true /\ r' = r) \/
-  (is_leader r = false /\ hup_scan r false /\ hup_campaign r tl = Ok r').
+  (is_leader r = false /\ r_promotable r = false /\ r' = r) \/
+  (is_leader r = false /\ r_promotable r = true /\ hup_scan r true /\ r' = r) \/
+  (is_leader r = false /\ r_promotable r = true /\ hup_scan r false /\ hup_campaign r tl = Ok r').
 Proof.
   unfold hup. fold (hup_low r). intros H.
   destruct (is_leader r). { inversion H; auto. }
+  destruct (r_promotable r); cbn [negb] in H. 2:{ inversion H; auto. }
   apply bind_ok in H. destruct H as (low & Hlow & H).
   inv_bind H. destruct x.
-  - inversion H; subst. right; left. split; [reflexivity|]. split; [|reflexivity].
+  - inversion H; subst. right; right; left. split; [reflexivity|]. split; [reflexivity|].
+    split; [|reflexivity]. exists low. auto.
+  - right; right; right. split; [reflexivity|]. split; [reflexivity|]. split; [|exact H].
     exists low. auto.
-  - right; right. split; [reflexivity|]. split; [|exact H]. exists low. auto.
 Qed.
 
 Theorem hup_blocked r tl : hup_scan r true -> hup r tl = Ok r.
 Proof.
   intros (low & Hlow & Hb). unfold hup. fold (hup_low r). destruct (is_leader r); [reflexivity|].
+  destruct (negb (r_promotable r)); [reflexivity|].
   rewrite Hlow. cbn [bind]. rewrite Hb. reflexivity.
 Qed.
 
+(* fix 8deb47c: a node that is not a voter of its own configuration never campaigns,
+   whatever the entry point *)
+Theorem hup_nonpromotable r tl : r_promotable r = false -> hup r tl = Ok r.
+Proof.
+  intros Hp. unfold hup. destruct (is_leader r); [reflexivity|]. rewrite Hp. reflexivity.
+Qed.
+
 (* any change made by hup (in particular becoming candidate, pre-candidate or leader, or
-   raising the term) implies the scan found no unapplied membership change *)
+   raising the term) implies the node is promotable and the scan found no unapplied
+   membership change *)
 Theorem hup_guard r tl r' :
   hup r tl = Ok r' -> r' <> r ->
-  is_leader r = false /\ hup_scan r false /\ hup_campaign r tl = Ok r'.
+  is_leader r = false /\ r_promotable r = true /\ hup_scan r false /\ hup_campaign r tl = Ok r'.
 Proof.
-  intros H Hne. apply hup_spec in H. destruct H as [[_ E]|[(_ & _ & E)|H]]; try contradiction.
+  intros H Hne. apply hup_spec in H.
+  destruct H as [[_ E]|[(_ & _ & E)|[(_ & _ & _ & E)|H]]]; try contradiction.
   exact H.
+Qed.
+
+(* ... through Raft::step: a local MsgHup on a non-promotable node changes nothing ... *)
+Theorem not_promotable_hup_step r m :
+  r_promotable r = false -> m_type m = MsgHup -> m_term m = 0 -> step r m = Ok (r, E_OK).
+Proof.
+  intros Hp Ht H0. unfold step. rewrite H0. change (0 =? 0) with true. cbn [bind].
+  rewrite Ht. change (MsgHup =? MsgHup) with true. cbn iota.
+  rewrite (hup_nonpromotable _ _ Hp). reflexivity.
+Qed.
+
+(* ... and RawNode::campaign on a non-promotable node returns Ok and leaves the node as it is *)
+Theorem not_promotable_rn_campaign n :
+  r_promotable (rn_raft n) = false -> rn_campaign n = Ok (n, E_OK).
+Proof.
+  intros Hp. unfold rn_campaign, lift2.
+  rewrite (not_promotable_hup_step _ _ Hp); [|reflexivity|reflexivity].
+  cbn. destruct n; reflexivity.
 Qed.
 
 (* regression guard for a8252b4: without a pending (unstable) snapshot the window starts
@@ -929,15 +960,16 @@ Proof.
 Qed.
 
 Theorem hup_window_not_compacted r tl r' :
-  hup r tl = Ok r' -> is_leader r = false ->
+  hup r tl = Ok r' -> is_leader r = false -> r_promotable r = true ->
   u_maybe_first_index (unst (r_log r)) = None ->
   exists low fi b,
     hup_low r = Ok low /\ first_index (r_log r) = Ok fi /\ fi <= low /\
     applied (r_log r) + 1 <= low /\
     has_unapplied_conf_changes r low (committed (r_log r) + 1) = Ok b.
 Proof.
-  intros H Hl Hn. apply hup_spec in H.
-  destruct H as [[E _]|[(_ & (low & A & B) & _)|(_ & (low & A & B) & _)]]; [congruence| |];
+  intros H Hl Hp Hn. apply hup_spec in H.
+  destruct H as [[E _]|[(_ & E & _)|[(_ & _ & (low & A & B) & _)|(_ & _ & (low & A & B) & _)]]];
+    [congruence|congruence| |];
     destruct (hup_low_not_compacted _ _ Hn A) as (fi & F1 & F2 & F3);
     exists low, fi; eexists; repeat split; eassumption.
 Qed.
@@ -1274,7 +1306,6 @@ Proof.
   inv_bind H. apply reset_fields in Hx.
   destruct Hx as (_ & _ & Hl & Hc & Hi & Hp & Ht & Hm & _).
   cbn in H.
-  destruct (negb (last_index (r_log x) =? persisted (r_log x))); [discriminate|].
   match type of H with match ?g with _ => _ end = _ => destruct g as [pr|] end; [|discriminate].
   inv_bind H. destruct x0 as [r6 ok]. destruct ok; [|discriminate]. inversion H; subst. clear H.
   apply append_entry_spec in Hx. destruct Hx as (Hctl & Hmsg & (y & Hy & Hlog)).
@@ -1306,36 +1337,23 @@ Proof.
   intros e He _ _. apply Hb; exact He.
 Qed.
 
-(* the form used below: the bound on the log is needed only when the log is fully
-   persisted, which become_leader asserts *)
-Definition LBP (l : raft_log) : Prop := last_index l = persisted l -> LogBounded l.
+(* the hypothesis of the election theorems below.  Before fix 19c179c become_leader
+   asserted last_index = persisted, and the bound was needed only for a fully persisted
+   log; now a node may become leader with an unpersisted tail, so the bound on every
+   physically held entry is needed unconditionally *)
+Definition LBP (l : raft_log) : Prop := LogBounded l.
 
 Lemma LogBounded_LBP l : LogBounded l -> LBP l.
-Proof. intros H _. exact H. Qed.
+Proof. intros H. exact H. Qed.
 
 Lemma LBP_set_limit l k : LBP l -> LBP (set_limit l k).
 Proof.
-  intros H Hp. eapply LogBounded_same_ents; [apply same_ents_set_limit|]. apply H.
-  rewrite <- (last_index_eq l (set_limit l k)) by reflexivity. exact Hp.
-Qed.
-
-Lemma become_leader_persisted r r' :
-  become_leader r = Ok r' -> last_index (r_log r) = persisted (r_log r).
-Proof.
-  unfold become_leader. intros H.
-  destruct (role_eqb (r_state r) Follower); [discriminate|].
-  inv_bind H. apply reset_fields in Hx. destruct Hx as (_ & _ & Hl & _).
-  cbn in H. rewrite Hl in H.
-  destruct (last_index (r_log r) =? persisted (r_log r)) eqn:E; cbn [negb] in H; [|discriminate].
-  apply N.eqb_eq in E. exact E.
+  intros H. eapply LogBounded_same_ents; [apply same_ents_set_limit|]. exact H.
 Qed.
 
 Theorem become_leader_ConfBound' r r' :
   become_leader r = Ok r' -> LBP (r_log r) -> ConfBound r' /\ r_state r' = Leader.
-Proof.
-  intros H Hb. eapply become_leader_ConfBound; [exact H|]. apply Hb.
-  eapply become_leader_persisted; exact H.
-Qed.
+Proof. apply become_leader_ConfBound. Qed.
 
 (* --- the proposal path of step_leader --- *)
 
@@ -1870,7 +1888,7 @@ Lemma hup_LInv r tl r' :
   hup r tl = Ok r' -> LBP (r_log r) -> LInv r -> LInv r'.
 Proof.
   intros H Hb Hinv. apply hup_spec in H.
-  destruct H as [[_ ->]|[(_ & _ & ->)|(_ & _ & Hc)]]; try exact Hinv.
+  destruct H as [[_ ->]|[(_ & _ & ->)|[(_ & _ & _ & ->)|(_ & _ & _ & Hc)]]]; try exact Hinv.
   unfold hup_campaign in Hc. destruct tl; [eapply campaign_real_LInv; eassumption|].
   destruct (r_pre_vote r); [eapply campaign_pre_LInv|eapply campaign_real_LInv]; eassumption.
 Qed.
@@ -2530,7 +2548,7 @@ Theorem step_campaign_guard r m r' c :
   (* a pre-candidate won the pre-vote *)
   (r_state r = PreCandidate /\ r_state r' = Candidate /\ m_type m = MsgRequestPreVoteResponse) \/
   (* hup campaigned, after its scan answered false *)
-  (exists r1 tl, prologue r m r1 /\ is_leader r1 = false /\
+  (exists r1 tl, prologue r m r1 /\ is_leader r1 = false /\ r_promotable r1 = true /\
      hup_scan r1 false /\
      hup r1 tl = Ok r' /\ (m_type m = MsgHup \/ m_type m = MsgTimeoutNow)).
 Proof.
@@ -2563,13 +2581,15 @@ Proof.
   assert (Hhup : forall tl, hup r1 tl = Ok r' -> (m_type m = MsgHup \/ m_type m = MsgTimeoutNow) ->
      st r r' \/
      (r_state r = PreCandidate /\ r_state r' = Candidate /\ m_type m = MsgRequestPreVoteResponse) \/
-     (exists r1 tl, prologue r m r1 /\ is_leader r1 = false /\
+     (exists r1 tl, prologue r m r1 /\ is_leader r1 = false /\ r_promotable r1 = true /\
         hup_scan r1 false /\
         hup r1 tl = Ok r' /\ (m_type m = MsgHup \/ m_type m = MsgTimeoutNow))).
-  { intros tl Hh Hty. pose proof (hup_spec _ _ _ Hh) as [[_ ->]|[(_ & _ & ->)|(Hl & Hsc & _)]].
+  { intros tl Hh Hty.
+    pose proof (hup_spec _ _ _ Hh) as [[_ ->]|[(_ & _ & ->)|[(_ & _ & _ & ->)|(Hl & Hpr & Hsc & _)]]].
     - left. apply Hst1, st_refl.
     - left. apply Hst1, st_refl.
-    - right; right. exists r1, tl. auto. }
+    - left. apply Hst1, st_refl.
+    - right; right. exists r1, tl. auto 10. }
   destruct (m_type m =? MsgHup) eqn:Ehup.
   { inv_bind H. inversion H; subst. apply N.eqb_eq in Ehup. eapply Hhup; eauto. }
   match type of H with (if ?c then _ else _) = _ => destruct c end.
@@ -2588,7 +2608,7 @@ Proof.
     assert (Hsame : forall rr, st r1 rr -> Ok (rr, E_OK) = Ok (r', c) ->
                st r r' \/
      (r_state r = PreCandidate /\ r_state r' = Candidate /\ m_type m = MsgRequestPreVoteResponse) \/
-     (exists r1 tl, prologue r m r1 /\ is_leader r1 = false /\
+     (exists r1 tl, prologue r m r1 /\ is_leader r1 = false /\ r_promotable r1 = true /\
         hup_scan r1 false /\
         hup r1 tl = Ok r' /\ (m_type m = MsgHup \/ m_type m = MsgTimeoutNow))).
     { intros rr Hs E. inversion E; subst. left. apply Hst1. exact Hs. }
@@ -2835,8 +2855,9 @@ Qed.
 From RV Require M.MemStorageProofs M.RaftLogProofs.
 
 Transparent last_index.
-Theorem RepInv_LBP rw l :
-  RaftLogProofs.RepInv rw l -> u_snapshot (unst l) = None -> LBP l.
+Theorem RepInv_bound_persisted rw l :
+  RaftLogProofs.RepInv rw l -> u_snapshot (unst l) = None ->
+  last_index l = persisted l -> LogBounded l.
 Proof.
   intros H Hs Hp e He.
   destruct H as [Hst _ Hct Hsh Hper _ _ _]. rewrite Hs in Hsh.
@@ -2855,6 +2876,34 @@ Proof.
   assert (Hlt : (k < length (entries (store l)))%nat) by (apply nth_error_Some; congruence).
   unfold MemStorageProofs.next_of. lia.
 Qed.
+
+(* the hypothesis LBP of the election theorems: it holds whenever the store does not
+   reach beyond the log's last index (no stale stored tail) -- in particular for a fully
+   persisted log and for a log whose unstable entries extend the store *)
+Theorem RepInv_LBP rw l :
+  RaftLogProofs.RepInv rw l -> u_snapshot (unst l) = None ->
+  storage_last_index (store l) <= last_index l -> LBP l.
+Proof.
+  intros H Hs Hle e He.
+  destruct H as [Hst _ Hct _ _ _ _ _].
+  destruct He as [He|He].
+  - apply In_nth_error in He. destruct He as (k & Hk).
+    pose proof (MemStorageProofs.contig_nth _ _ _ _ Hct Hk) as Hi.
+    assert (Hlt : (k < length (u_entries (unst l)))%nat) by (apply nth_error_Some; congruence).
+    unfold last_index, u_maybe_last_index.
+    destruct (u_entries (unst l)) as [|e0 es] eqn:Eu; [cbn in Hlt; lia|].
+    remember (length (e0 :: es)) as n. clear - Hi Hlt. lia.
+  - rewrite (RaftLogProofs.storage_last_next _ Hst) in Hle.
+    apply In_nth_error in He. destruct He as (k & Hk).
+    destruct Hst as (Hc & _).
+    pose proof (MemStorageProofs.contig_nth _ _ _ _ Hc Hk) as Hi.
+    assert (Hlt : (k < length (entries (store l)))%nat) by (apply nth_error_Some; congruence).
+    unfold MemStorageProofs.next_of in Hle. lia.
+Qed.
+
+Theorem RepInv_LBP_persisted rw l :
+  RaftLogProofs.RepInv rw l -> u_snapshot (unst l) = None -> last_index l = persisted l -> LBP l.
+Proof. exact (RepInv_bound_persisted rw l). Qed.
 Opaque last_index.
 
 (* ConfBound speaks about every entry physically held; in particular about the logical
@@ -2962,7 +3011,47 @@ Definition s_compacted : raft :=
            (mkUn None [] 0 7) 6 6 2 0)
     c3 0 true 2.
 
+(* a single-voter follower with an unpersisted tail: entry 1 is stored, entry 2 is still
+   unstable (last_index = 2 > persisted = 1) *)
+Definition s_solo_tail : raft :=
+  mkRaft 2 1 1 []
+    (mkLog (mkMem (mkHS 2 1 1) (mkCS [1] [] [] [] false) [e_norm 1 1] 0 0
+                  false false None) (mkUn None [e_norm 2 2] 0 2) 1 1 1 0)
+    4 u64_max 0 Follower true 0 None 0 (ro_new 0) 0 0 false false false
+    false false 1 10 15 10 20 0%Z u64_max 0 3 u64_max
+    (mkTr [(1, s_pr 1)] (mkConf [1] [] [] [] false) [] 4 false) [] [12; 13; 14] None.
+
+(* a single-voter candidate whose unstable entry 2 has truncated the log under a stored
+   tail: the store still physically holds a stale membership-change entry at index 3,
+   above last_index = 2 (so LogBounded fails), and persisted = 1 < last_index *)
+Definition s_cand_stale : raft :=
+  mkRaft 2 1 1 []
+    (mkLog (mkMem (mkHS 2 1 1) (mkCS [1] [] [] [] false) [e_norm 1 1; e_norm 1 2; e_cc 1 3] 0 0
+                  false false None) (mkUn None [e_norm 2 2] 0 2) 1 1 1 0)
+    4 u64_max 0 Candidate true 0 None 0 (ro_new 0) 0 0 false false false
+    false false 1 10 15 10 20 0%Z u64_max 0 3 u64_max
+    (mkTr [(1, s_pr 1)] (mkConf [1] [] [] [] false) [] 4 false) [] [12; 13; 14] None.
+
 End C09Samples.
+
+(* the pre-fix form of become_leader_ConfBound' ("the bound on the log is needed only if the
+   log is fully persisted") relied on the assertion removed by fix 19c179c and is false of
+   the fixed model: *)
+Theorem become_leader_covers_persisted_refuted :
+  exists r r', become_leader r = Ok r' /\
+    (last_index (r_log r) = persisted (r_log r) -> LogBounded (r_log r)) /\
+    ~ ConfBound r'.
+Proof.
+  exists C09Samples.s_cand_stale.
+  destruct (become_leader C09Samples.s_cand_stale) as [r'|s] eqn:E; [|vm_compute in E; discriminate].
+  exists r'. split; [reflexivity|]. split.
+  - intros H. vm_compute in H. discriminate.
+  - intros Hc. vm_compute in E. inversion E; subst; clear E.
+    specialize (Hc (C09Samples.e_cc 1 3)).
+    assert (K : e_index (C09Samples.e_cc 1 3) <= 2).
+    { apply Hc; [right; cbn; auto|reflexivity|vm_compute; reflexivity]. }
+    vm_compute in K. apply K. reflexivity.
+Qed.
 
 (* statements pinned in Props/C09.v whose proofs are more than [exact] *)
 Lemma C09_ConfBound_def_pin :
@@ -2982,13 +3071,12 @@ Proof. intros r. unfold LInv. reflexivity. Qed.
 
 Lemma C09_RInv_def_pin :
   forall n, (RInv n <-> (r_state (rn_raft n) = Leader -> ConfBound (rn_raft n))) /\
-            (RB n <-> (last_index (r_log (rn_raft n)) = persisted (r_log (rn_raft n)) ->
-                       LogBounded (r_log (rn_raft n)))).
+            (RB n <-> LogBounded (r_log (rn_raft n))).
 Proof. intros n. unfold RInv, RB, LInv, LBP. split; reflexivity. Qed.
 
 Lemma C09_hup_guard_pin :
   forall r tl r',
   hup r tl = Ok r' -> r' <> r ->
-  is_leader r = false /\ hup_scan r false.
-Proof. intros r tl r' H Hne. destruct (hup_guard r tl r' H Hne) as (A & B & _). split; assumption. Qed.
+  is_leader r = false /\ r_promotable r = true /\ hup_scan r false.
+Proof. intros r tl r' H Hne. destruct (hup_guard r tl r' H Hne) as (A & B & C0 & _). auto. Qed.
 
